@@ -116,6 +116,17 @@ func (t *Tree) AncestorAt(b int, n uint64) int {
 	return b
 }
 
+// GspecFor: the genesis of a scenario (the gas limit is raised when a block carries a big contract creation).
+func GspecFor(spec []NodeSpec) *core.Genesis {
+	g := NewGspec()
+	for _, sp := range spec {
+		if sp.Fan > 0 {
+			g.GasLimit = 400000000 // room for thousands of SSTOREs in one transaction
+		}
+	}
+	return g
+}
+
 func NewGspec() *core.Genesis {
 	alloc := core.GenesisAlloc{}
 	for _, k := range keyHex {
@@ -126,13 +137,8 @@ func NewGspec() *core.Genesis {
 }
 
 func BuildTree(c *vh.Ctx, spec []NodeSpec) *Tree {
-	t := &Tree{Spec: spec, Gspec: NewGspec(), Engine: NewDiffEngine(), ByHash: map[common.Hash]int{}}
+	t := &Tree{Spec: spec, Gspec: GspecFor(spec), Engine: NewDiffEngine(), ByHash: map[common.Hash]int{}}
 	t.Config = t.Gspec.Config
-	for _, sp := range spec {
-		if sp.Fan > 0 {
-			t.Gspec.GasLimit = 400000000 // room for thousands of SSTOREs in one transaction
-		}
-	}
 	t.Ids = &Ids{Block: map[common.Hash]int{}, Root: map[common.Hash]int{}, Tx: map[common.Hash]int{}}
 	gendb := aquadb.NewMemDatabase()
 	genesis := t.Gspec.MustCommit(gendb)
